@@ -1,582 +1,333 @@
-import Lean.Data.Json
 import TplModel.Html.Scan
 import TplModel.Html.CodeScan
 import TplModel.Exp.Eval
-namespace Full
-open EV (Val)
-
-/-! Executable model of the whole pinned engine: scan → compile attributes → tree → manager → renderer.
-    Written for differential testing only (imperative style, `partial`), not for proofs. -/
-
-inductive Part
-  | lit (s : String)
-  | code (e : EL.E)
-  | other                      -- BegEnd / CodeStart / CodeEnd
-deriving Inhabited
-
-structure CAttr where
-  name : String
-  value : Option String
-  parts : List Part            -- ValueTokens (empty = not compiled)
-deriving Inhabited
-
-inductive NK | root | tag | text | comment | cdata
-deriving DecidableEq, Repr, Inhabited
-
-structure NodeD where           -- node data without children
-  id : Nat
-  kind : NK
-  value : String                -- token value
-  tagName : String
-  attrs : List CAttr            -- source order
-deriving Inhabited
-
-inductive Node
-  | mk (d : NodeD) (kids : List Node) (endVal : Option String)
-deriving Inhabited
-
-def Node.d : Node → NodeD | .mk d _ _ => d
-def Node.kids : Node → List Node | .mk _ k _ => k
-def Node.endVal : Node → Option String | .mk _ _ e => e
+import TplModel.Html.Render
+import TplModel.Generated.Facts
+/-! Loader (scan → compileAttr → ParseTokens → manager registry) and the concrete evaluation interface that
+    instantiates the generic renderer `RN` with the expression evaluator `EV`. Executable; used by the driver. -/
+namespace EN
+open EV (Val FnSpec)
+open RN (CAttr Part NodeD Node NK Cls)
 
 structure Cfg where
-  textTags : List String := ["script", "style", "textarea", "title"]
-  voidTags : List String := ["!doctype", "area", "base", "br", "col", "embed", "hr", "img", "input", "link", "meta", "source", "track", "wbr"]
+  textTags : List String := Facts.defaultTextTags
+  voidTags : List String := Facts.defaultVoidElements
   tagPrefix : String := "t:"
   attrPrefix : String := ":"
-  fixed : Bool := false          -- model of the tree with the §9 repairs 1,3,4,5,6 applied
 
 inductive LoadRes (α : Type)
   | ok (a : α) | err | panic | unsupported
+deriving Inhabited
+
+/-- loader state: table of compiled expressions (RN.Part.code refers to it by index) -/
+abbrev LM := StateM (Array EL.E)
 
 /-- compileAttr over one attribute -/
-def compileAttr (cfg : Cfg) (a : HS.Attr) : LoadRes CAttr :=
-  let name := String.mk a.name
+def compileAttr (cfg : Cfg) (a : HS.Attr) : LM (LoadRes CAttr) := do
+  let name := String.ofList a.name
   let value : Option (List Char) :=
     if a.value.isNone && name == cfg.attrPrefix ++ "else" then some "\"true\"".toList else a.value
   match value with
-  | none => .ok ⟨name, none, []⟩
+  | none => return .ok ⟨name, none, []⟩
   | some v =>
-    if !name.startsWith cfg.attrPrefix then .ok ⟨name, some (String.mk v), []⟩
+    if !name.startsWith cfg.attrPrefix then return .ok ⟨name, some (String.ofList v), []⟩
     else
       let toks := CS.scan a.valueStart v
       let isErr : Bool := match toks.getLast? with
-        | some t => t.kind == .begEnd && t.value == "ERR".toList && t.start.line == 0
+        | some t => t.value == "ERR".toList && t.start.line == 0
         | none => false
-      if isErr then .err else
-      let rec go : List CS.CTok → List Part → LoadRes (List Part)
-        | [], acc => .ok acc.reverse
-        | t :: ts, acc =>
-          match t.kind with
-          | .literal => go ts (.lit (String.mk t.value) :: acc)
-          | .codeValue =>
-            match EL.parseCode (String.mk t.value) with
-            | .accept e => go ts (.code e :: acc)
-            | .reject => .err
-            | .unsupported => .unsupported
-          | _ => go ts (.other :: acc)
-      match go toks [] with
-      | .ok parts => .ok ⟨name, some (String.mk v), parts⟩
-      | .err => .err
-      | .panic => .panic
-      | .unsupported => .unsupported
+      if isErr then return .err else
+      let mut parts : List Part := []
+      for t in toks do
+        match t.kind with
+        | .literal => parts := parts ++ [.lit (String.ofList t.value)]
+        | .codeValue =>
+          match EL.parseCode (String.ofList t.value) with
+          | .accept e =>
+            let tbl ← get
+            set (tbl.push e)
+            parts := parts ++ [.code tbl.size]
+          | .reject => return .err
+          | .unsupported => return .unsupported
+        | _ => parts := parts ++ [.other]
+      return .ok ⟨name, some (String.ofList v), parts⟩
 
-def compileAttrs (cfg : Cfg) : List HS.Attr → LoadRes (List CAttr)
-  | [] => .ok []
-  | a :: as =>
-    match compileAttr cfg a with
-    | .ok c => match compileAttrs cfg as with
-      | .ok cs => .ok (c :: cs)
-      | .err => .err | .panic => .panic | .unsupported => .unsupported
-    | .err => .err | .panic => .panic | .unsupported => .unsupported
+def compileAttrs (cfg : Cfg) : List HS.Attr → LM (LoadRes (List CAttr))
+  | [] => return .ok []
+  | a :: as => do
+    match ← compileAttr cfg a with
+    | .ok c =>
+      match ← compileAttrs cfg as with
+      | .ok cs => return .ok (c :: cs)
+      | .err => return .err | .panic => return .panic | .unsupported => return .unsupported
+    | .err => return .err | .panic => return .panic | .unsupported => return .unsupported
 
-def lowerS (s : String) : String := String.mk (s.toList.map Char.toLower)
+def lowerS (s : String) : String := String.ofList (s.toList.map Char.toLower)
 
-def isSelfClose (name : String) (attrs : List CAttr) (rawAttrs : List HS.Attr) : Bool :=
-  match rawAttrs.getLast? with
+/-- Tag.IsSelfClose: decided on the LAST attribute in source order -/
+def isSelfClose (name : String) (attrs : List CAttr) : Bool :=
+  match attrs.getLast? with
   | none => name.endsWith "/"
-  | some a =>
-    match attrs.getLast? with
-    | some c => match c.value with
-      | none => (String.mk a.name).endsWith "/"
-      | some v => v.endsWith "/"
-    | none => false
+  | some c => match c.value with
+    | none => c.name.endsWith "/"
+    | some v => v.endsWith "/"
+
+/-- weight of SortedAttr, from the table extracted from html/tag.go -/
+def weight (cfg : Cfg) (a : CAttr) : Int × Int :=
+  if a.name.startsWith cfg.attrPrefix then
+    let cmd := RN.dropPrefix a.name cfg.attrPrefix
+    (0, ((Facts.attrWeights.find? (·.1 == cmd)).map (·.2)).getD 0)
+  else (1, 0)
+
+/-- SortedAttr (stable; the comparator is a strict weak order as long as no plain attribute is literally named
+    like a weighted directive) -/
+def sortedAttrs (cfg : Cfg) (attrs : List CAttr) : List CAttr :=
+  let lt (a b : CAttr) : Bool :=
+    let (pa, wa) := weight cfg a; let (pb, wb) := weight cfg b
+    pa < pb || (pa == pb && wa < wb)
+  attrs.foldl (fun acc a =>
+    let (before, after) := acc.span (fun b => !lt a b)
+    before ++ [a] ++ after) []
 
 structure Frame where
   d : NodeD
   before : List Node       -- reversed
 
-/-- ParseTokens with the pinned nil-dereference -/
-def buildTree (cfg : Cfg) (fileIdx : Nat) (toks : List HS.Token) : LoadRes Node :=
-  let rec go (i : Nat) (stack : List Frame) (cur : List Node) (rootEnd : Option String) (dead : Bool) :
-      List HS.Token → LoadRes Node
-    | [] =>
-      let rec closeAll : List Frame → List Node → List Node
-        | [], cur => cur
-        | fr :: rest, cur => closeAll rest (.mk fr.d cur.reverse none :: fr.before)
-      .ok (.mk ⟨fileIdx * 100000, .root, "", "", []⟩ (closeAll stack cur).reverse rootEnd)
-    | t :: ts =>
-      let id := fileIdx * 100000 + i + 1
-      let value := String.mk t.value
-      match t.kind, t.tag with
-      | .tag, some tg =>
-        match compileAttrs cfg tg.attrs with
-        | .err => .err | .panic => .panic | .unsupported => .unsupported
-        | .ok attrs =>
-          let name := String.mk tg.name
-          let isVoid := cfg.voidTags.any (fun v => lowerS v == lowerS name)
-          let selfClose := isSelfClose name attrs tg.attrs
-          let isClose := name.startsWith "/" || selfClose
-          let d : NodeD := ⟨id, .tag, value, name, attrs⟩
-          if isClose || isVoid then
-            if selfClose || isVoid then
-              if dead then .panic else go (i+1) stack (.mk d [] none :: cur) rootEnd dead ts
-            else
-              if dead then .panic else
-              match stack with
-              | fr :: rest => go (i+1) rest (.mk fr.d cur.reverse (some value) :: fr.before) rootEnd dead ts
-              | [] =>
-                if cfg.fixed then go (i+1) [] (.mk d [] none :: cur) rootEnd dead ts
-                else go (i+1) [] cur (some value) true ts
-          else
-            if dead then .panic else go (i+1) (⟨d, cur⟩ :: stack) [] rootEnd dead ts
-      | .tag, none => .err
-      | k, _ =>
-        let nk := match k with | .text => NK.text | .comment => NK.comment | _ => NK.cdata
-        if dead then .panic else go (i+1) stack (.mk ⟨id, nk, value, "", []⟩ [] none :: cur) rootEnd dead ts
-  go 0 [] [] none false toks
-
-end Full
-
-namespace Full
-open EV (Val)
-
-partial def fmtV : Val → Option String
-  | .nil => some "<nil>"
-  | .bool b => some (toString b)
-  | .int _ v => some (toString v)
-  | .str s => some s
-  | .slice _ xs _ | .array _ xs =>
-    (xs.mapM fmtV).map fun ss => "[" ++ " ".intercalate ss ++ "]"
-  | .map _ kvs =>
-    let sorted := kvs.toArray.qsort (fun a b => a.1 < b.1) |>.toList
-    (sorted.mapM fun kv => (fmtV kv.2).map fun v => kv.1 ++ ":" ++ v).map fun ss => "map[" ++ " ".intercalate ss ++ "]"
-  | _ => none
-
-def escapeHtml (s : String) : String :=
-  String.join (s.toList.map fun c =>
-    if c = '&' then "&amp;" else if c = '\'' then "&#39;" else if c = '<' then "&lt;"
-    else if c = '>' then "&gt;" else if c = '"' then "&#34;" else c.toString)
-
-def trimSpace (s : String) : String :=
-  let cs := s.toList.dropWhile HS.isSpace
-  String.mk (cs.reverse.dropWhile HS.isSpace).reverse
-
-def sTake (s : String) (n : Nat) : String := String.mk (s.toList.take n)
-def sDrop (s : String) (n : Nat) : String := String.mk (s.toList.drop n)
-def sDropRight (s : String) (n : Nat) : String := String.mk (s.toList.take (s.length - n))
-def trimPrefix (s p : String) : String := if s.startsWith p then sDrop s p.length else s
-def trimSuffix (s p : String) : String := if s.endsWith p then sDropRight s p.length else s
-def indexOf (s : String) (c : Char) : Option Nat :=
-  let cs := s.toList
-  let i := (cs.takeWhile (· ≠ c)).length
-  if i < cs.length then some i else none
-
-inductive ChildMode
-  | unset | nop
-  | textLike (a : CAttr) (isText : Bool)
-  | abf
-
-structure Opt where
-  noPrint : Bool := false
-  child : ChildMode := .unset
-
-inductive Tpl
-  | file (root : Node)
-  | frag (orig : Node) (lo hi : Nat)
-
-structure RS where
-  cur : List (Nat × Nat) := []
-  nc : List (Nat × Bool) := []
-  failed : Option String := none
-  unsupported : Bool := false
-  depth : Nat := 0
-
-abbrev X := StateM RS
-
-def fail (cls : String) : X Unit := modify fun s => if s.failed.isNone then { s with failed := some cls } else s
-def isFailed : X Bool := do return (← get).failed.isSome
-
-def getCur (id : Nat) : X Nat := do return (((← get).cur.find? (·.1 = id)).map (·.2)).getD 0
-def setCur (id : Nat) (v : Nat) : X Unit := modify fun s => { s with cur := (id, v) :: s.cur.filter (·.1 ≠ id) }
-def getNc (id : Option Nat) : X (Option Bool) := do
-  match id with
-  | none => return none          -- nodeCondition[nil] is never written
-  | some i => return ((← get).nc.find? (·.1 = i)).map (·.2)
-def setNc (id : Nat) (b : Bool) : X Unit := modify fun s => { s with nc := (id, b) :: s.nc.filter (·.1 ≠ id) }
-
-/-- exp.Evaluate: value, or none after recording a failure -/
-def evalExpr (sc : List Val) (e : EL.E) : X (Option Val) := do
-  match (EV.eval sc e).run {} with
-  | .error () => fail "eval"; return none
-  | .ok (v, st) =>
-    if st.err.isSome then fail "eval"; return none
-    else return some v
-
-def attrEvaluate (a : CAttr) (sc : List Val) : X String := do
-  if ← isFailed then return ""
-  match a.value with
-  | none => fail "attrValueExpected"; return ""
-  | some v =>
-    if a.parts.isEmpty then return v
-    let mut buf := ""
-    for p in a.parts do
-      match p with
-      | .lit s => buf := buf ++ s
-      | .code e =>
-        match ← evalExpr sc e with
-        | none => return ""
-        | some r =>
-          match fmtV r with
-          | some s => buf := buf ++ s
-          | none => modify fun st => { st with unsupported := true }
-      | .other => pure ()
-    return buf
-
-def withAssign (a : CAttr) (sc : List Val) : X (Option Val) := do
-  if ← isFailed then return none
-  if a.value.isNone then fail "attrValueExpected"; return none
-  let mut names : List String := []
-  let mut codes : List EL.E := []
-  for p in a.parts do
-    match p with
-    | .lit s =>
-      let name := trimSpace s
-      if name == "" then continue
-      if codes.length > names.length then fail "with"; return none
-      if !name.endsWith ":=" then fail "with"; return none
-      let mut name := trimSpace (trimSuffix name ":=")
-      if names.length > 0 then
-        if !name.startsWith ";" then fail "with"; return none
-        name := trimSpace (trimPrefix name ";")
-      names := names ++ [name]
-    | .code e =>
-      if names.length != codes.length + 1 then fail "with"; return none
-      codes := codes ++ [e]
-    | .other => pure ()
-  if names.isEmpty then fail "with"; return none
-  if codes.length != names.length then fail "with"; return none
-  let mut kvs : List (String × Val) := []
-  for (n, e) in names.zip codes do
-    match ← evalExpr sc e with
-    | none => return none
-    | some v => kvs := (n, v) :: kvs.filter (·.1 ≠ n)
-  return some (.map "map[string]interface {}" kvs)
-
-def extractRange (s0 : String) : String × String × String :=
-  let s := trimSpace s0
-  match indexOf s ':' with
-  | none => ("", "", s)
-  | some i =>
-    let obj := trimSpace (sDrop s (i + 1))
-    let hd := sTake s i
-    match indexOf hd ',' with
-    | none => (trimSpace hd, "", obj)
-    | some j => (trimSpace (sTake hd j), trimSpace (sDrop hd (j + 1)), obj)
-
-def weight (cfg : Cfg) (a : CAttr) : Int × Int :=
-  if a.name.startsWith cfg.attrPrefix then
-    let cmd := sDrop a.name cfg.attrPrefix.length
-    (0, if cmd == "with" then -4 else if cmd == "if" || (cfg.fixed && ["else-if", "elseif", "elif", "else"].contains cmd) then -3 else if cmd == "range" then -2 else if cmd == "remove" then -1 else 0)
-  else (1, 0)
-
-/-- SortedAttr for comparators that are strict weak orders (plain attributes are not named with/if/range/remove) -/
-def sortedAttrs (cfg : Cfg) (attrs : List CAttr) : List CAttr :=
-  let lt (a b : CAttr) : Bool :=
-    let (pa, wa) := weight cfg a; let (pb, wb) := weight cfg b
-    pa < pb || (pa == pb && wa < wb)
-  -- stable insertion sort
-  attrs.foldl (fun acc a =>
-    let (before, after) := acc.span (fun b => !lt a b)
-    before ++ [a] ++ after) []
-
-def hasAttr (cfg : Cfg) (attrs : List CAttr) (names : List String) : Bool :=
-  names.any fun n => attrs.any fun a => a.name == cfg.attrPrefix ++ n
-
-def condNames : List String := ["if", "else-if", "elseif", "elif", "else"]
-
-def isTagNode (n : Node) : Bool := n.d.kind == .tag
-def isBlankText (n : Node) : Bool := n.d.kind == .text && trimSpace n.d.value == ""
-
-def prevSiblingTag (sibs : List Node) (idx : Nat) : Option Nat :=
-  ((sibs.take idx).reverse.find? isTagNode).map (·.d.id)
-
-def isHiddenComment (v : String) : Bool :=
-  let c := trimSpace (trimSuffix (trimPrefix v "<!--") "-->")
-  c.startsWith "/*" && c.endsWith "*/"
-
-structure Mgr where
-  cfg : Cfg
-  templates : List (String × Tpl)
-
-mutual
-partial def execute (m : Mgr) (node : Node) (sibs : List Node) (idx : Nat) (sc : List Val) (opt0 : Opt) : X String := do
-  if ← isFailed then return ""
-  let d := node.d
-  let mut opt := opt0
-  let mut data := sc
-  let mut tokenBuf := ""
-  match d.kind with
-  | .root => pure ()
-  | .tag =>
-    let (data', opt', buf) ← processTagStart m node sibs idx sc opt
-    if ← isFailed then return ""
-    data := data'; opt := opt'; tokenBuf := buf
-  | .comment =>
-    if isHiddenComment d.value then opt := { opt with noPrint := true }
-    if !opt.noPrint then tokenBuf := d.value
-  | _ => if !opt.noPrint then tokenBuf := d.value
-  let mut out := tokenBuf
-  -- children
-  match opt.child with
-  | .unset => out := out ++ (← execKids m node.kids node.kids 0 data)
-  | .nop => pure ()
-  | .textLike a isText =>
-    let r ← attrEvaluate a data
-    if !(← isFailed) then out := out ++ (if isText then escapeHtml r else r)
-  | .abf =>
-    let kids := node.kids
-    let tagIdx := (kids.takeWhile (fun k => !isTagNode k)).length
-    let tagNode := kids[tagIdx]?
-    let before := if tagIdx > 0 && tagNode.isSome then (match kids[0]? with | some k => if isBlankText k then some k else none | none => none) else none
-    let after := match kids.getLast? with | some k => if isBlankText k then some (k, kids.length - 1) else none | none => none
-    if let some b := before then out := out ++ (← execute m b kids 0 data {})
-    if let some t := tagNode then out := out ++ (← execute m t kids tagIdx data {})
-    if let some (a, ai) := after then out := out ++ (← execute m a kids ai data {})
-  if ← isFailed then return out
-  match node.endVal with
-  | some e => if !opt.noPrint then out := out ++ e
-  | none => pure ()
-  return out
-
-partial def execKids (m : Mgr) (kids : List Node) (sibs : List Node) (start : Nat) (sc : List Val) : X String := do
-  let mut out := ""
-  let mut i := start
-  for k in kids do
-    if ← isFailed then return out
-    out := out ++ (← execute m k sibs i sc {})
+/-- ParseTokens (a closing tag at the root is kept as a leaf) -/
+def buildTree (cfg : Cfg) (fileIdx : Nat) (toks : List HS.Token) : LM (LoadRes Node) := do
+  let mut i := 0
+  let mut stack : List Frame := []
+  let mut cur : List Node := []
+  for t in toks do
+    let id := fileIdx * 100000 + i + 1
     i := i + 1
-  return out
+    let value := String.ofList t.value
+    match t.kind, t.tag with
+    | .tag, some tg =>
+      match ← compileAttrs cfg tg.attrs with
+      | .err => return .err | .panic => return .panic | .unsupported => return .unsupported
+      | .ok attrs =>
+        let name := String.ofList tg.name
+        let isVoid := cfg.voidTags.any (fun v => lowerS v == lowerS name)
+        let selfClose := isSelfClose name attrs
+        let isClose := name.startsWith "/" || selfClose
+        let d : NodeD := { id := id, kind := .tag, value := value, tagName := name, attrs := sortedAttrs cfg attrs }
+        if isClose || isVoid then
+          if selfClose || isVoid then cur := .mk d [] none :: cur
+          else
+            match stack with
+            | fr :: rest =>
+              cur := .mk fr.d cur.reverse (some value) :: fr.before
+              stack := rest
+            | [] => cur := .mk d [] none :: cur          -- stray closing tag: leaf
+        else
+          stack := ⟨d, cur⟩ :: stack
+          cur := []
+    | .tag, none => return .err
+    | k, _ =>
+      let nk := match k with | .text => NK.text | .comment => NK.comment | _ => NK.cdata
+      cur := .mk { id := id, kind := nk, value := value, tagName := "", attrs := [] } [] none :: cur
+  -- unclosed elements stay open to the end of input
+  let mut cur' := cur
+  for fr in stack do
+    cur' := .mk fr.d cur'.reverse none :: fr.before
+  return .ok (.mk { id := fileIdx * 100000, kind := .root, value := "", tagName := "", attrs := [] } cur'.reverse none)
 
-partial def execTpl (m : Mgr) (t : Tpl) (sc : List Val) : X String := do
-  -- a fresh htmlTemplate: fresh flag / condition maps
-  let saved ← get
-  if saved.depth > 200 then fail "stackOverflow"; return ""
-  modify fun s => { s with cur := [], nc := [], depth := s.depth + 1 }
-  let out ← match t with
-    | .file root => execute m root [] 0 sc {}
-    | .frag orig lo hi => execKids m ((orig.kids.drop lo).take (hi - lo)) orig.kids lo sc
-  modify fun s => { s with cur := saved.cur, nc := saved.nc, depth := saved.depth }
-  return out
+/-- annotate every child with its previous sibling tag and the following blank text (node.go) -/
+partial def annotate (n : Node) : Node :=
+  let kids := n.kids
+  let rec go (prev : Option Nat) : List Node → List Node
+    | [] => []
+    | k :: rest =>
+      let nextBlank := match rest.head? with
+        | some nx => if RN.isBlankText nx then some nx.d.value else none
+        | none => none
+      let k' := annotate k
+      let k'' : Node := .mk { k'.d with prevTag := prev, nextBlank := nextBlank } k'.kids k'.endVal
+      k'' :: go (if RN.isTagNode k then some k.d.id else prev) rest
+  .mk n.d (go none kids) n.endVal
 
-partial def processTagStart (m : Mgr) (node : Node) (sibs : List Node) (idx : Nat) (sc : List Val) (opt0 : Opt) :
-    X (List Val × Opt × String) := do
-  let cfg := m.cfg
-  let d := node.d
-  let attrs := d.attrs
-  let mut opt := opt0
-  let mut data := sc
-  let mut tokenBuf := ""
-  if lowerS d.tagName == cfg.tagPrefix ++ "block" then opt := { opt with noPrint := true }
-  if hasAttr cfg attrs ["define", "replace"] then opt := { noPrint := true, child := .nop }
-  let flags ← getCur d.id
-  if hasAttr cfg attrs condNames && flags &&& 1 == 0 then opt := { noPrint := true, child := .nop }
-  if hasAttr cfg attrs ["range"] && flags &&& 2 == 0 then opt := { noPrint := true, child := .nop }
-  if hasAttr cfg attrs ["insert"] then opt := { opt with child := .nop }
-  let mut tagBuf := ""
-  if !opt.noPrint then tagBuf := "<" ++ d.tagName
-  let mut contentBuf := ""
-  for a in sortedAttrs cfg attrs do
-    if ← isFailed then return (data, opt, "")
-    if a.name.startsWith cfg.attrPrefix then
-      let cmd := sDrop a.name cfg.attrPrefix.length
-      if cmd == "with" then
-        if cfg.fixed && (← getCur d.id) != 0 then continue
-        match ← withAssign a data with
-        | some fr => data := fr :: data
-        | none => return (data, opt, "")
-      else if condNames.contains cmd then
-        -- processIfElse
-        if a.value.isNone then fail "attrValueExpected"; return (data, opt, "")
-        if (← getCur d.id) &&& 1 != 0 then continue
-        setCur d.id ((← getCur d.id) ||| 1)
-        opt := { opt with child := .nop }
-        let mut doEval := cmd == "if"
-        if cmd != "if" then
-          match ← getNc (prevSiblingTag sibs idx) with
-          | none => fail "unexpectedElse"
-          | some p =>
-            doEval := !p
-            if cfg.fixed && p then setNc d.id true
-        if doEval && !(← isFailed) then
-          let r ← attrEvaluate a data
-          if !(← isFailed) then
-            setNc d.id false
-            if r == "true" then
-              setNc d.id true
-              tokenBuf := tokenBuf ++ (← execute m node sibs idx data {})
-        setCur d.id ((← getCur d.id) &&& 2)
-        if ← isFailed then return (data, opt, "")
-        if cfg.fixed then return (data, opt, tokenBuf)
-      else if cmd == "range" then
-        match a.value with
-        | none => fail "attrValueExpected"; return (data, opt, "")
-        | some av =>
-          if (← getCur d.id) &&& 2 != 0 then continue
-          setCur d.id ((← getCur d.id) ||| 2)
-          let v := trimSuffix (trimPrefix (trimSuffix (trimPrefix av "'") "'") "\"") "\""
-          let (idxName, itemName, objName) := extractRange v
-          match EL.parseCode objName with
-          | .reject => fail "rangeObject"
-          | .unsupported => modify fun s => { s with unsupported := true }
-          | .accept e =>
-            match ← evalExpr data e with
-            | none => pure ()
-            | some obj =>
-              let items : Option (List (Val × Val)) := match obj with
-                | .slice _ xs _ | .array _ xs => some (xs.mapIdx fun i x => (Val.int .int (i + 1), x))
-                | .str s => some (s.toUTF8.toList.mapIdx fun i b => (Val.int .int (i + 1), Val.int .uint8 b.toNat))
-                | .map _ kvs => some (kvs.map fun kv => (Val.str kv.1, kv.2))
-                | _ => none
-              match items with
-              | none => fail "rangeKind"
-              | some items =>
-                let nextBlank := match sibs[idx + 1]? with
-                  | some n => if isBlankText n then some n else none
-                  | none => none
-                let mut count := 0
-                for (i, x) in items do
-                  if ← isFailed then break
-                  let frame := Val.map "map[string]interface {}" (if idxName == itemName then [(itemName, x)] else [(idxName, i), (itemName, x)])
-                  let child := frame :: data
-                  if count > 0 then
-                    if let some nb := nextBlank then tokenBuf := tokenBuf ++ (← execute m nb sibs (idx + 1) child {})
-                  tokenBuf := tokenBuf ++ (← execute m node sibs idx child {})
-                  count := count + 1
-          setCur d.id ((← getCur d.id) &&& 1)
-          if ← isFailed then return (data, opt, "")
-          if cfg.fixed then return (data, opt, tokenBuf)
-      else if cmd == "remove" then
-        let av := a.value.getD ""
-        if av == "\"all\"" || av == "'all'" then opt := { noPrint := true, child := .nop }
-        else if av == "\"body\"" || av == "'body'" then opt := { opt with child := .nop }
-        else if av == "\"tag\"" || av == "'tag'" then opt := { opt with noPrint := true }
-        else if av == "\"all-but-first\"" || av == "'all-but-first'" then
-          match opt.child with
-          | .unset => opt := { opt with child := .abf }
-          | _ => pure ()
-      else if cmd == "text" || cmd == "raw" then
-        match opt.child with
-        | .unset => opt := { opt with child := .textLike a (cmd == "text") }
-        | _ => pure ()
-      else if cmd == "define" then pure ()
-      else if cmd == "replace" || cmd == "insert" then
-        let name ← attrEvaluate a data
-        if ← isFailed then return (data, opt, "")
-        match m.templates.find? (·.1 == name) with
-        | none => fail "tplNotFound"; return (data, opt, "")
-        | some (_, t) =>
-          let out ← execTpl m t data
-          if ← isFailed then return (data, opt, "")
-          if cmd == "replace" then tokenBuf := tokenBuf ++ out else contentBuf := contentBuf ++ out
-      else
-        let r ← attrEvaluate a data
-        if ← isFailed then return (data, opt, "")
-        if !opt.noPrint then
-          tagBuf := tagBuf ++ " " ++ cmd ++ "=" ++ (if cfg.fixed then "\"" ++ escapeHtml r ++ "\"" else (escapeHtml r).quote)
-    else
-      if !(attrs.any fun b => b.name == cfg.attrPrefix ++ a.name) then
-        if !opt.noPrint then
-          tagBuf := tagBuf ++ " " ++ a.name ++ (match a.value with | some v => "=" ++ v | none => "")
-  if !opt.noPrint then
-    tagBuf := tagBuf ++ ">" ++ contentBuf
-    tokenBuf := tokenBuf ++ tagBuf
-  return (data, opt, tokenBuf)
-end
+end EN
 
-end Full
+namespace EN
+open EV (Val FnSpec)
+open RN (CAttr Part NodeD Node NK Cls)
 
-namespace Full
-open EV (Val)
-open Lean (Json)
+/-- evaluation context of one manager: compiled expressions and user functions -/
+structure Ctx where
+  exprs : Array EL.E
+  fns : List (String × FnSpec)
 
-partial def valOfJson : Json → Val
-  | .null => .nil
-  | .bool b => .bool b
-  | .num n => .int .int n.mantissa       -- integers only in the experiment
-  | .str s => .str s
-  | .arr xs => .slice "[]interface {}" (xs.toList.map valOfJson) xs.size
-  | .obj kvs => .map "map[string]interface {}" (kvs.toList.map fun (k, v) => (k, valOfJson v))
+def unsupportedEv : String := "\x00UNSUPPORTED"
+
+/-- exp.Evaluate on a frame list (innermost first) -/
+def evalExpr (cx : Ctx) (sc : List Val) (e : EL.E) : Except Cls Val × List String :=
+  match (EV.eval cx.fns sc e).run {} with
+  | .error () => (.error (.eval false false), [])          -- panic recovered by Evaluate (call log is lost with it; see harness)
+  | .ok (v, st) =>
+    let lg := st.calls.reverse ++ (if st.unsupported then [unsupportedEv] else [])
+    match st.err with
+    | some er => (.error (.eval er.sentinel er.nosuch), lg)
+    | none => (.ok v, lg)
+
+/-- Attr.Evaluate -/
+def attrEvaluate (cx : Ctx) (a : CAttr) (sc : List Val) : Except Cls String × List String :=
+  match a.value with
+  | none => (.error .attrValueExpected, [])
+  | some v =>
+    if a.parts.isEmpty then (.ok v, [])
+    else Id.run do
+      let mut buf := ""
+      let mut lg : List String := []
+      for p in a.parts do
+        match p with
+        | .lit s => buf := buf ++ s
+        | .code id =>
+          match evalExpr cx sc (cx.exprs[id]!) with
+          | (.error c, l) => return (.error c, lg ++ l)
+          | (.ok r, l) =>
+            lg := lg ++ l
+            match EV.fmtV r with
+            | some s => buf := buf ++ s
+            | none => lg := lg ++ [unsupportedEv]
+        | .other => pure ()
+      return (.ok buf, lg)
 
 def emptyMap : Val := .map "map[string]interface {}" []
 
-/-- tplManager.Add for one file; returns the extended template table -/
-def addFile (cfg : Cfg) (fileIdx : Nat) (name : String) (src : String) (tpls : List (String × Tpl)) :
-    LoadRes (List (String × Tpl)) :=
-  if tpls.any (·.1 == name) then .err else
+/-- Attr.WithAssign followed by Combine(NewScope(result), data) -/
+def withAssign (cx : Ctx) (a : CAttr) (sc : List Val) : Except Cls (List Val) × List String :=
+  match a.value with
+  | none => (.error .attrValueExpected, [])
+  | some _ => Id.run do
+    let mut names : List String := []
+    let mut codes : List Nat := []
+    for p in a.parts do
+      match p with
+      | .lit s =>
+        let name := RN.trimSpace s
+        if name == "" then continue
+        if codes.length > names.length then return (.error .withSyntax, [])
+        if !name.endsWith ":=" then return (.error .withSyntax, [])
+        let mut name := RN.trimSpace (RN.trimSuffixS name ":=")
+        if names.length > 0 then
+          if !name.startsWith ";" then return (.error .withSyntax, [])
+          name := RN.trimSpace (RN.trimPrefixS name ";")
+        names := names ++ [name]
+      | .code id =>
+        if names.length != codes.length + 1 then return (.error .withSyntax, [])
+        codes := codes ++ [id]
+      | .other => pure ()
+    if names.isEmpty then return (.error .withSyntax, [])
+    if codes.length != names.length then return (.error .withSyntax, [])
+    let mut kvs : List (String × Val) := []
+    let mut lg : List String := []
+    for (n, id) in names.zip codes do
+      match evalExpr cx sc (cx.exprs[id]!) with
+      | (.error c, l) => return (.error c, lg ++ l)
+      | (.ok v, l) =>
+        lg := lg ++ l
+        kvs := kvs.filter (·.1 ≠ n) ++ [(n, v)]
+    return (.ok (Val.map "map[string]interface {}" kvs :: sc), lg)
+
+def indexOfC (s : String) (c : Char) : Option Nat :=
+  let cs := s.toList
+  let i := (cs.takeWhile (· ≠ c)).length
+  if i < cs.length then some i else none
+def sTake (s : String) (n : Nat) : String := String.ofList (s.toList.take n)
+def sDrop (s : String) (n : Nat) : String := String.ofList (s.toList.drop n)
+
+/-- extractRange (html/template.go) -/
+def extractRange (s0 : String) : String × String × String :=
+  let s := RN.trimSpace s0
+  match indexOfC s ':' with
+  | none => ("", "", s)
+  | some i =>
+    let obj := RN.trimSpace (sDrop s (i + 1))
+    let hd := sTake s i
+    match indexOfC hd ',' with
+    | none => (RN.trimSpace hd, "", obj)
+    | some j => (RN.trimSpace (sTake hd j), RN.trimSpace (sDrop hd (j + 1)), obj)
+
+/-- processRange up to the loop: one child scope per item -/
+def rangeItems (cx : Ctx) (a : CAttr) (sc : List Val) : Except Cls (List (List Val)) × List String :=
+  match a.value with
+  | none => (.error .attrValueExpected, [])
+  | some av =>
+    let v := RN.trimSuffixS (RN.trimPrefixS (RN.trimSuffixS (RN.trimPrefixS av "'") "'") "\"") "\""
+    let (idxName, itemName, objName) := extractRange v
+    match EL.parseCode objName with
+    | .reject => (.error .rangeObject, [])
+    | .unsupported => (.error .rangeObject, [unsupportedEv])
+    | .accept e =>
+      match evalExpr cx sc e with
+      | (.error c, lg) => (.error c, lg)
+      | (.ok obj, lg) =>
+        let items : Option (List (Val × Val)) := match obj with
+          | .slice _ xs _ | .array _ xs => some (xs.mapIdx fun i x => (Val.int .int (i + 1), x))
+          | .str s => some (s.toUTF8.toList.mapIdx fun i b => (Val.int .int (i + 1), Val.int .uint8 b.toNat))
+          | .map _ kvs => some (kvs.map fun kv => (Val.str kv.1, kv.2))
+          | _ => none
+        match items with
+        | none => (.error .rangeKind, lg)
+        | some items =>
+          (.ok (items.map fun (i, x) =>
+            Val.map "map[string]interface {}" (if idxName == itemName then [(itemName, x)] else [(idxName, i), (itemName, x)]) :: sc), lg)
+
+/-- the manager: configuration, registry (files and fragments in one namespace), evaluation context -/
+structure Mgr where
+  cfg : Cfg
+  templates : List (String × Node)
+  files : List String
+  cx : Ctx
+
+def envOf (m : Mgr) : RN.Env (List Val) where
+  evalStr := attrEvaluate m.cx
+  withAssign := withAssign m.cx
+  rangeItems := rangeItems m.cx
+  tpl := fun name => (m.templates.find? (·.1 == name)).map (·.2)
+
+def rcfgOf (cfg : Cfg) : RN.Cfg := { tagPrefix := cfg.tagPrefix, attrPrefix := cfg.attrPrefix }
+
+/-- GetChildrenWithoutHeadTailBlankText -/
+def trimBlankKids (kids : List Node) : List Node :=
+  let n := kids.length
+  (kids.zipIdx.filter fun (k, i) => !((i == 0 || i + 1 == n) && RN.isBlankText k)).map (·.1)
+
+/-- addDefinedTpl: pre-order walk registering every `define` -/
+partial def addDefined (cfg : Cfg) (cx : Ctx) (n : Node) (tpls : List (String × Node)) : LoadRes (List (String × Node)) :=
+  let here : LoadRes (List (String × Node)) :=
+    if n.d.kind == .tag then
+      match n.d.attrs.find? (fun a => a.name == cfg.attrPrefix ++ "define") with
+      | none => .ok tpls
+      | some a =>
+        match attrEvaluate cx a [emptyMap] with
+        | (.error _, _) => .err
+        | (.ok nameS, lg) =>
+          if lg.contains unsupportedEv then .unsupported
+          else if tpls.any (·.1 == nameS) then .err
+          else .ok (tpls ++ [(nameS, .mk { id := n.d.id + 50000, kind := .root, value := "", tagName := "", attrs := [] } (trimBlankKids n.kids) none)])
+    else .ok tpls
+  n.kids.foldl (fun acc k => match acc with | .ok t => addDefined cfg cx k t | r => r) here
+
+/-- tplManager.Add for one file -/
+def addFile (cfg : Cfg) (fns : List (String × FnSpec)) (fileIdx : Nat) (name : String) (src : String) (m : Mgr) : LoadRes Mgr :=
+  if m.templates.any (·.1 == name) then .err else
   match HS.scan ⟨cfg.textTags.map String.toList⟩ src.toList with
   | .error (.panic _) => .panic
   | .error _ => .err
   | .ok toks =>
-    match buildTree cfg fileIdx toks with
+    let (r, exprs) := (buildTree cfg fileIdx toks).run m.cx.exprs
+    match r with
     | .err => .err | .panic => .panic | .unsupported => .unsupported
-    | .ok root =>
-      let rec walk (fuel : Nat) (n : Node) (acc : LoadRes (List (String × Tpl))) : LoadRes (List (String × Tpl)) :=
-        match fuel, acc with
-        | 0, _ => .err
-        | f+1, .ok tpls =>
-          let here : LoadRes (List (String × Tpl)) :=
-            if n.d.kind == .tag then
-              match n.d.attrs.find? (fun a => a.name == cfg.attrPrefix ++ "define") with
-              | none => .ok tpls
-              | some a =>
-                let (nameS, st) := (attrEvaluate a [emptyMap]).run {}
-                if st.unsupported then .unsupported
-                else if st.failed.isSome then .err
-                else if tpls.any (·.1 == nameS) then .err
-                else
-                  let kids := n.kids
-                  let lo := match kids[0]? with | some k => if isBlankText k then 1 else 0 | none => 0
-                  let hi := match kids.getLast? with | some k => if isBlankText k then kids.length - 1 else kids.length | none => 0
-                  .ok (tpls ++ [(nameS, .frag n lo hi)])
-            else .ok tpls
-          n.kids.foldl (fun acc k => walk f k acc) here
-        | _, r => r
-      walk 100000 root (.ok (tpls ++ [(name, .file root)]))
+    | .ok root0 =>
+      let root := annotate root0
+      let cx : Ctx := { exprs := exprs, fns := fns }
+      -- the file is registered before its fragments (and stays registered when a fragment name is a duplicate)
+      match addDefined cfg cx root (m.templates ++ [(name, root)]) with
+      | .ok tpls => .ok { m with templates := tpls, files := m.files ++ [name], cx := cx }
+      | .err => .err | .panic => .panic | .unsupported => .unsupported
 
-def renderOp (j : Json) : Json :=
-  let files := (j.getObjValAs? (Array (Array String)) "files").toOption.getD #[]
-  let tplName := (j.getObjValAs? String "tpl").toOption.getD ""
-  let data := (j.getObjVal? "data").toOption.getD .null
-  let cfg : Cfg := { fixed := (j.getObjValAs? Bool "fixed").toOption.getD false }
-  let rec load (i : Nat) (fs : List (Array String)) (tpls : List (String × Tpl)) : LoadRes (List (String × Tpl)) :=
-    match fs with
-    | [] => .ok tpls
-    | f :: rest =>
-      match addFile cfg (i + 1) (f[0]!) (f[1]!) tpls with
-      | .ok t => load (i + 1) rest t
-      | r => r
-  match load 0 files.toList [] with
-  | .err => Json.mkObj [("load", "err")]
-  | .panic => Json.mkObj [("load", "panic")]
-  | .unsupported => Json.mkObj [("load", "unsupported")]
-  | .ok tpls =>
-    match tpls.find? (·.1 == tplName) with
-    | none => Json.mkObj [("load", "ok"), ("get", "notfound")]
-    | some (_, t) =>
-      let dv := match valOfJson data with | .nil => emptyMap | v => v
-      let (out, st) := (execTpl ⟨cfg, tpls⟩ t [dv, emptyMap]).run {}
-      if st.unsupported then Json.mkObj [("load", "unsupported")]
-      else Json.mkObj [("load", "ok"), ("out", out), ("err", match st.failed with | some c => Json.str c | none => Json.null)]
+def fuelFor (_m : Mgr) : Nat := 100000
 
-end Full
+end EN
